@@ -74,13 +74,13 @@ CXX_FLAGS = {
 }
 
 
-def build_harness(name, vinfo, rc=True, interpose=False, extra='', libs='-lcrypto -lgcrypt -ldl -lpthread', srcs=None, fuzzer=False):
+def build_harness(name, vinfo, rc=True, interpose=False, extra='', libs='-lcrypto -lgcrypt -ldl -lpthread', srcs=None, fuzzer=False, csrcs=None):
     """Compile harness/<name>.cpp against a library variant.  Returns binary path."""
     variant = vinfo['variant']
     cxx, flags = CXX_FLAGS[variant]
     if fuzzer:
         flags += ' -fsanitize=fuzzer'
-    key = hashlib.sha256(json.dumps([harness_hash(), vinfo['dir'], name, rc, interpose, extra, libs, flags, srcs, 3]).encode()).hexdigest()[:16]
+    key = hashlib.sha256(json.dumps([harness_hash(), vinfo['dir'], name, rc, interpose, extra, libs, flags, srcs, csrcs, 4]).encode()).hexdigest()[:16]
     hdir = os.path.join(vbuild.BUILD, 'h-%s-%s-%s' % (name, 'rc' if rc else 'norc', key))
     binp = os.path.join(hdir, name)
     import fcntl
@@ -111,6 +111,16 @@ def build_harness(name, vinfo, rc=True, interpose=False, extra='', libs='-lcrypt
         cmd += ['-I' + vinfo['include'], '-I' + HARNESS, '-I' + gen, '-I' + os.path.join(vinfo['repo'], 'lib')]
         for s in (srcs or [name + '.cpp']):
             cmd.append(os.path.join(HARNESS, s))
+        for cs in (csrcs or []):
+            # C sources that include the tree's internal headers: the variant's own compiler and flags
+            co = os.path.join(hdir, os.path.basename(cs)[:-2] + '.o')
+            ccmd = [vinfo['cc']] + vinfo['cflags'].replace('-fsanitize=fuzzer-no-link', '').split() + [
+                '-std=gnu11', '-w', '-DHAVE_CONFIG_H', '-I' + vinfo['include'], '-I' + os.path.join(vinfo['repo'], 'lib'), '-I' + HARNESS,
+                '-c', os.path.join(HARNESS, cs), '-o', co]
+            r = subprocess.run(ccmd, stdout=subprocess.PIPE, stderr=subprocess.STDOUT)
+            if r.returncode != 0:
+                raise vbuild.BuildError('harness build failed: %s\n%s' % (' '.join(ccmd), r.stdout.decode('utf-8', 'replace')[-8000:]))
+            cmd.append(co)
         if vinfo.get('lib', '').endswith('.a'):
             # whole-archive: the sanitizer runtimes define weak interceptors for crypt/crypt_r, which would
             # otherwise keep crypt-static.o from being pulled out of the archive
@@ -240,7 +250,7 @@ class Check:
     def binaries(self, vinfo):
         sp = self.spec
         kw = dict(interpose=sp.get('interpose', False), extra=sp.get('cxx_extra', ''),
-                  libs=sp.get('libs', '-lcrypto -lgcrypt -ldl -lpthread'))
+                  libs=sp.get('libs', '-lcrypto -lgcrypt -ldl -lpthread'), csrcs=sp.get('csrcs'))
         b_rc = build_harness(sp['harness'], vinfo, rc=True, **kw)
         b_norc = build_harness(sp['harness'], vinfo, rc=False, **kw)
         return b_rc, b_norc
@@ -250,6 +260,8 @@ class Check:
         e.update(SAN_ENV)
         e['ASAN_SYMBOLIZER_PATH'] = shutil.which('llvm-symbolizer') or shutil.which('llvm-symbolizer-14') or ''
         e.update(self.spec.get('env', {}))
+        for var, vname in self.spec.get('env_variants', {}).items():
+            e[var] = vbuild.build_variant(vname)['lib']
         return e
 
     def replay(self, b_norc, path, tier, n=3):
@@ -287,6 +299,8 @@ def run_check(prop, spec, tier, replay_path=None):
     chk = Check(prop, spec)
     try:
         vinfo = chk.variant()
+        for vname in spec.get('env_variants', {}).values():
+            vbuild.build_variant(vname)
         b_rc, b_norc = chk.binaries(vinfo)
     except vbuild.BuildError as e:
         # The tree no longer builds with the hooks enabled: report, do not claim a violation.
